@@ -127,6 +127,13 @@ pub fn run(prop: &str, leg: &str, ctx: &Ctx, rep: &mut Report) -> bool {
 pub fn replay(v: &Value) -> bool {
     let prop = v["property"].as_str().unwrap_or("");
     let r = &v["replay"];
+    // findings that depend on a schedule or on a fresh process (cold-start legs, long-lived
+    // threads, generator windows, deep rejection chains, planted candidates): re-run the leg
+    if matches!(r["kind"].as_str(), Some("cold") | Some("window") | Some("deep") | Some("planted-candidate") | Some("vanishing-candidate")) && r["generated_sk"].is_null() {
+        println!("this finding depends on a schedule / a fresh process / a scripted generator: re-running the leg with the recorded seed");
+        crate::util::not_replayable();
+        return false;
+    }
     match prop {
         "C12" => c12::replay(r),
         "C07" => codec::replay(r),
